@@ -56,6 +56,34 @@ THEOREMS = [
      "lookup_plugin (B \"clear\") ps = Some (clear_plugin uri_ok) -> all_scalar host = true -> "
      "handle ps (utf8_encode (client_message (B \"clear\") [B \"all\"; host])) s = "
      "({| hr_data := frame (B \"ok\") (Some (B \"cleared the caches on \" ++ utf8_encode host)); hr_close := false |}, s)"),
+    ("reply_total",
+     "forall (S : Type) (ps : plugins_chk S) (req : bytes) (s : S), plugins_total ps -> "
+     "exists hr s', handle_chk ps req s = Ok (hr, s') /\\ status_ok (hr_data hr)"),
+    ("handler_never_panics",
+     "forall (S : Type) (ps : plugins S) (req : bytes) (s : S), handle_chk (lift_plugins ps) req s = Ok (handle ps req s)"),
+    ("ping_never_panics",
+     "forall (S : Type) (args : list str) (s : S), ping_plugin_chk args s = Ok (ping_plugin args s)"),
+    ("log_truncation_refuted",
+     "exists (data : bytes) (line : str), utf8_decode data = Some line /\\ (length data > 64)%nat /\\ log_truncate_chk 64 data = Panic"),
+    ("socket_never_wedged",
+     "forall (S : Type) (ps : plugins_chk S) (blocked : bytes -> S -> bool) (env_step : N -> S -> S * bool) "
+     "(st : lts_state S) (evs : list event) (k : N) (req : bytes), plugins_total ps -> "
+     "conn_get k (l_conns st) = Some (PComplete req) -> Forall (fun ev => event_conn ev <> Some k) evs -> "
+     "let st1 := lrun ps blocked env_step st evs in conn_get k (l_conns st1) = Some (PComplete req) /\\ "
+     "(blocked req (l_env st1) = false -> let st2 := lstep ps blocked env_step st1 (EHandle k) in "
+     "(exists d, conn_get k (l_conns st2) = Some (PReplied d) /\\ status_ok d) /\\ "
+     "(forall j, j <> k -> conn_get j (l_conns st2) = conn_get j (l_conns st1)))"),
+    ("accept_never_blocked",
+     "forall (S : Type) (ps : plugins_chk S) (blocked : bytes -> S -> bool) (env_step : N -> S -> S * bool) "
+     "(st : lts_state S) (k : N) (req : bytes), l_listener st = Listening -> conn_get k (l_conns st) = None -> "
+     "let st1 := lrun ps blocked env_step st [EConnect k; ESend k req; EFin k] in "
+     "conn_get k (l_conns st1) = Some (PComplete req) /\\ l_listener st1 = Listening /\\ l_env st1 = l_env st /\\ "
+     "(forall j, j <> k -> conn_get j (l_conns st1) = conn_get j (l_conns st))"),
+    ("clients_cannot_close",
+     "forall (S : Type) (ps : plugins_chk S) (blocked : bytes -> S -> bool) (env_step : N -> S -> S * bool) "
+     "(st : lts_state S) (ev : event), (forall k, ev <> EHandle k) -> (forall e, ev <> EEnv e) -> "
+     "l_listener (lstep ps blocked env_step st ev) = l_listener st /\\ l_env (lstep ps blocked env_step st ev) = l_env st"),
+    ("fixture_plugins_total", "plugins_total fx_plugins_chk"),
 ]
 RULE = ("(a) direct calls of kvarn_utils::encode_quoted_str / quoted_str_split / join against the Coq model (correspondence) and, for the "
         "round trip, against the specification 'the list itself' (oracle): ALL argument vectors over the alphabet {a, SP, \", ', \\} with one "
